@@ -1,3 +1,19 @@
 // Kani harnesses mounted into crates/rip-log/src/lib.rs (cfg(kani) only).
 #![allow(unused_imports, dead_code)]
 use super::*;
+
+/// An EventLog value for harnesses of other crates. Its file descriptor is never touched: every harness that
+/// holds one stubs EventLog::append / replay* and leaks the log instead of dropping it.
+pub fn kani_event_log() -> EventLog {
+    use std::os::fd::FromRawFd;
+    EventLog {
+        path: PathBuf::new(),
+        writer: Mutex::new(BufWriter::with_capacity(0, unsafe { File::from_raw_fd(3) })),
+    }
+}
+
+#[kani::proof]
+fn c00_setup_probe() {
+    let x: u8 = kani::any();
+    assert!(x as u16 <= 255);
+}
